@@ -473,8 +473,11 @@ func phase0(tr *TargetResult, opts *SolveOpts, results []*OblResult, pending []i
 			var q strings.Builder
 			q.WriteString("(set-option :timeout 400)\n")
 			q.WriteString(tr.Script)
-			for _, i := range part {
-				fmt.Fprintf(&q, "(push 1)\n(assert %s)\n(check-sat)\n(pop 1)\n", tr.Obls[i].Cond)
+			// Every goal is checked under an assumption literal (no push/pop: a goal can leave
+			// nothing behind, whatever happens to the query before or after it), and announced
+			// by an echo so that each answer is attributed by name, not by position.
+			for k, i := range part {
+				fmt.Fprintf(&q, "(define-fun goal!%d () Bool %s)\n(echo \"@goal %d\")\n(check-sat-assuming (goal!%d))\n", k, tr.Obls[i].Cond, k, k)
 			}
 			file := filepath.Join(opts.TmpDir, fmt.Sprintf("i_%s_%d.smt2", tag, start))
 			os.WriteFile(file, []byte(q.String()), 0o644)
@@ -488,19 +491,42 @@ func phase0(tr *TargetResult, opts *SolveOpts, results []*OblResult, pending []i
 			cmd.Run()
 			cancel()
 			opts.release()
+			if d := os.Getenv("IONVC_KEEP0"); d != "" {
+				os.MkdirAll(d, 0o755)
+				os.WriteFile(filepath.Join(d, filepath.Base(file)+".out"), out.Bytes(), 0o644)
+				os.Rename(file, filepath.Join(d, filepath.Base(file)))
+			}
 			os.Remove(file)
 			dur := time.Since(t0).Seconds()
-			var answers []string
+			answers := map[int]string{}
+			cur, broken := -1, false
 			for _, ln := range strings.Split(out.String(), "\n") {
 				ln = strings.TrimSpace(ln)
-				if ln == "unsat" || ln == "sat" || ln == "unknown" || ln == "timeout" {
-					answers = append(answers, ln)
+				switch {
+				case strings.HasPrefix(ln, "@goal "), strings.HasPrefix(ln, "\"@goal "):
+					cur = -1
+					fmt.Sscanf(strings.Trim(ln, "\""), "@goal %d", &cur)
+				case ln == "unsat" || ln == "sat" || ln == "unknown":
+					if cur >= 0 {
+						if _, dup := answers[cur]; dup {
+							broken = true
+						}
+						answers[cur] = ln
+					} else {
+						broken = true
+					}
+					cur = -1
+				case ln != "":
+					// an error or anything unexpected: nothing this process said is used
+					broken = true
 				}
+			}
+			if broken {
+				answers = map[int]string{}
 			}
 			var mine []int
 			for k, i := range part {
-				if k < len(answers) {
-					a := answers[k]
+				if a, ok := answers[k]; ok {
 					o := tr.Obls[i]
 					if (a == "unsat" && !o.Cover) || (a == "sat" && o.Cover) {
 						results[i].Status, results[i].Solver, results[i].Time, results[i].Raw = a, "z3-new", dur/float64(len(part)), "incremental"
